@@ -121,10 +121,13 @@ def _errors(P, ys, xe, relative=False):
     out = []
     # BVP: SciPy's collocation tolerance is relative to (1 + |f|), i.e. absolute for small solutions - scale max(1, |y|).
     # IVP (relative=True): rtol/atol semantics - errors are measured relative to the size of the solution (`amp`).
+    # Either way one common scale for all rows: the solvers control the whole state vector (y, y', y'') at once, so a row
+    # that happens to be ~0 (y'' of a linear solution of size 1e5) is not resolved to an absolute 1e-6.
     amp = float(P.get("amp", 1.0)) if relative else 1.0
-    for k in range(min(K, ys.shape[0])):
-        ex = OP.sol_deriv(P["terms"], k, xe)
-        scale = amp * max(1.0, float(np.max(np.abs(ex))) / amp)
+    exs = [OP.sol_deriv(P["terms"], k, xe) for k in range(min(K, ys.shape[0]))]
+    big = max(float(np.max(np.abs(ex))) for ex in exs)
+    scale = amp * max(1.0, big / amp)
+    for k, ex in enumerate(exs):
         out.append(float(np.max(np.abs(ys[k] - ex))) / scale)
     return out
 
